@@ -203,3 +203,39 @@ def rule_R12(ctx, rep, config="c-lib"):
             else:
                 rep.ok("R12", key, sample={"call": c.where()})
     rep.floor("R12", "call sites of term_set_insert", n, 2)
+
+
+def rule_term_set_numbers(ctx, rep, config="c-lib"):
+    rep.rule("R12-num", "the number given to a new terminal set is its index in the vector term_set_from_table reads: the value stored into tab_term_set.num is the "
+                        "current length of term_sets.tab_term_set_vlo (in elements), taken before the set is appended to that vector -- not a count kept elsewhere "
+                        "(the hash table counts an entry that was reserved and never filled when an allocation failed in between)")
+    from .. import expr
+    p = ctx.prog(config)
+    f = p.fn("term_set_insert")
+    rep.cover(p, [f.name, "term_set_from_table"])
+    sts = [s for s in f.all_insts() if s.op == "store" and resolve_addr(f, s.ops[1]).last_field() == "tab_term_set.num"]
+    if len(sts) != 1:
+        raise AnalysisBroken("R12-num: %d stores to tab_term_set.num in term_set_insert" % len(sts))
+    st = sts[0]
+    expr.NAMED[0] = True
+    try:
+        v = repr(expr.lin(f, st.ops[0], 0, 2))
+    finally:
+        expr.NAMED[0] = False
+    cxx = any(c_.is_call() and (c_.d.get("srcname") == "length" or "6lengthEv" in (c_.callee or "")) for c_ in f.all_insts() if c_.is_call())
+    good = ("tab_term_set_vlo" in v and "vlo_free" in v and "vlo_start" in v) or (cxx and "length" in v and "tab_term_set_vlo" in v)
+    if not good:
+        # C++: vlo::length() of the vector
+        vi = f.inst(strip_int_casts(f, st.ops[0]))
+        while vi is not None and vi.op in ("udiv", "sdiv", "lshr", "trunc", "zext", "sext"):
+            vi = f.inst(strip_int_casts(f, vi.ops[0]))
+        if vi is not None and vi.is_call() and vi.args:
+            lp = loaded_from(f, vi.args[0])
+            if lp is not None and lp.last_field() == "term_sets.tab_term_set_vlo" and ("length" in (vi.d.get("srcname") or "") or "6lengthEv" in (vi.callee or "")):
+                good = True
+    if good:
+        rep.ok("R12-num", "term_set_insert/number-is-vector-index", sample={"store": st.where(), "value": v})
+    else:
+        rep.violation("R12-num", "term_set_insert/number-is-vector-index", "a new terminal set is numbered with `%s', not with the length of the vector it is appended to: when the "
+                      "two counts differ (an entry reserved before a failed allocation) later parses look the set up at a slot it does not occupy" % v,
+                      where=st.where(), witness=[st.where()])
